@@ -63,9 +63,20 @@ fn run() {
     let stdout = std::io::stdout();
     let mut out = std::io::BufWriter::new(stdout.lock());
     let mut cur: Option<Box<dyn Runner>> = None;
+    // runaway guard: a changed implementation whose states explode (or that loops) must not take the check down with it.
+    // A command that needs > 1.5 s or prints > 200 kB marks its case dead (`runaway-skip` for the rest of the case);
+    // after 3 such cases the harness stops (the missing lines count as a disagreement with the model).
+    let mut dead = false;
+    let mut runaways = 0;
     for line in stdin.lock().lines() {
         let line = line.unwrap();
         let toks: Vec<&str> = line.split_whitespace().collect();
+        if dead && !toks.is_empty() && toks[0] != "T" {
+            writeln!(out, "runaway-skip").unwrap();
+            continue;
+        }
+        dead = false;
+        let started = std::time::Instant::now();
         if toks.is_empty() || toks[0].starts_with('#') {
             writeln!(out, "#").unwrap();
             continue;
@@ -82,7 +93,22 @@ fn run() {
                 None => "nocase".into(),
             },
         };
-        writeln!(out, "{}", res).unwrap();
+        if started.elapsed().as_millis() > 1500 || res.len() > 200_000 {
+            dead = true;
+            runaways += 1;
+            writeln!(out, "RUNAWAY millis={} len={}", started.elapsed().as_millis(), res.len()).unwrap();
+            if runaways >= 3 {
+                out.flush().unwrap();
+                std::process::exit(3);
+            }
+            continue;
+        }
+        // bound the line length (a runaway state must not exhaust memory downstream); same rule in the Lean driver
+        if res.len() > 20000 {
+            writeln!(out, "{} ...TRUNCATED len={}", &res[..20000], res.len()).unwrap();
+        } else {
+            writeln!(out, "{}", res).unwrap();
+        }
     }
 }
 
